@@ -132,8 +132,12 @@ def convVarint (f : Nat → Option α) (p : Bytes) : Conv α :=
   | .ok (v, n) => match f v with | some x => .ok x n | none => .overflow
   | _ => varintErr p
 
+/-- `SInt32Value(s)`: the varint must fit in 32 bits (overflow otherwise, like `Int32Value` / `UInt32Value`),
+    then the zig-zag transform on those 32 bits -/
 def convZz32 (p : Bytes) : Conv Int :=
-  match decodeZigZag32 p with | .ok (v, n) => .ok v n | _ => varintErr p
+  match decodeVarint p with
+  | .ok (dv, n) => if n = 0 then .err else if dv > 4294967295 then .overflow else .ok (unzigzag (dv % two32)) n
+  | _ => varintErr p
 def convZz64 (p : Bytes) : Conv Int :=
   match decodeZigZag64 p with | .ok (v, n) => .ok v n | _ => varintErr p
 def convFixed32 (p : Bytes) : Conv Nat :=
